@@ -7,24 +7,25 @@ import (
 	"strings"
 
 	"github.com/fluhus/gostuff/aio"
-	"github.com/fluhus/gostuff/iterx"
 )
 
 // ReaderHeader iterates over SAM or header entries in a reader.
 func ReaderHeader(r io.Reader) iter.Seq2[SAMOrHeader, error] {
 	return func(yield func(SAMOrHeader, error) bool) {
-		csvReader := iterx.CSVReader(r, func(r *csv.Reader) {
-			r.Comma = '\t'
-			r.FieldsPerRecord = -1 // Allow variable number of fields.
-			r.LazyQuotes = true
-		})
-		for line, err := range csvReader {
-			// Error case.
+		csvReader := csv.NewReader(r)
+		csvReader.Comma = '\t'
+		csvReader.FieldsPerRecord = -1 // Allow variable number of fields.
+		csvReader.LazyQuotes = true
+		for {
+			line, err := csvReader.Read()
+			if err == io.EOF {
+				break
+			}
+			// Error case. A failed read ends the iteration; the line that
+			// was being read is incomplete and is not parsed.
 			if err != nil {
-				if !yield(SAMOrHeader{}, err) {
-					break
-				}
-				continue
+				yield(SAMOrHeader{}, err)
+				break
 			}
 			// Header line case.
 			if len(line) > 0 && strings.HasPrefix(line[0], "@") {
